@@ -172,6 +172,10 @@ class MUSE(BaseClassifier):
         self.highest_bits = np.zeros(self.n_dims)
 
         self.SFA_transformers = [[] for _ in range(self.n_dims)]
+        # fit starts from the configured search space, not from what an
+        # earlier fit of this object left behind
+        self.window_sizes = []
+        max_window = self.max_window
 
         # the words of all dimensions and all time series
         all_words = [dict() for _ in range(X.shape[0])]
@@ -185,22 +189,22 @@ class MUSE(BaseClassifier):
             # increment window size in steps of 'win_inc'
             win_inc = self.compute_window_inc(series_length)
 
-            self.max_window = int(min(series_length, self.max_window))
-            if self.min_window > self.max_window:
+            max_window = int(min(series_length, max_window))
+            if self.min_window > max_window:
                 raise ValueError(
                     f"Error in MUSE, min_window ="
                     f"{self.min_window} is bigger"
-                    f" than max_window ={self.max_window},"
-                    f" series length is {self.series_length}"
+                    f" than max_window ={max_window},"
+                    f" series length is {series_length}"
                     f" try set min_window to be smaller than series length in "
                     f"the constructor, but the classifier may not work at "
                     f"all with very short series"
                 )
             self.window_sizes.append(
-                list(range(self.min_window, self.max_window, win_inc))
+                list(range(self.min_window, max_window, win_inc))
             )
 
-            self.highest_bits[ind] = math.ceil(math.log2(self.max_window)) + 1
+            self.highest_bits[ind] = math.ceil(math.log2(max_window)) + 1
 
             for window_size in self.window_sizes[ind]:
 
